@@ -669,6 +669,15 @@ def r07_7(ctx):
                     for p in paths:
                         sup = [e for e in p.events if e.kind == "call" and e.what == "super().deserialize"]
                         ok = p.terminal == "return" and len(sup) == 1 and isinstance(sup[0].args[0], (bytes, bytearray)) and bytes(sup[0].args[0]) == body
+                        if ok:
+                            # ... and what the struct decoder returns is handed back as it is: a hook that edits a field of the decoded value
+                            # (masks bits, normalises an address) makes the value read differ from the value sent
+                            edits = [e for e in p.events if e.kind == "write" and "." in str(e.what) and not str(e.what).startswith(("self.", "cls."))]
+                            res0 = p.value[0] if isinstance(p.value, tuple) and p.value else p.value
+                            if edits or not (isinstance(res0, Sym) and res0.tag.startswith(("decoded", "super().deserialize#"))):
+                                ctx.violation(f"decoded-value-edited:{c.name}", f"{c.name}.deserialize changes the decoded value after the struct decoder produced it "
+                                              f"({[e.brief() for e in edits][:2] or res0!r}): decode(encode(v)) is no longer v", func=m, trace=p.trace(12), props=("C07",))
+                                continue
                         ctx.require(ok, f"transparent:{c.name}:{lead:#06x}:{'+trailing' if extra else 'exact'}",
                                     f"{c.name}.deserialize on a full-length encoding ({len(body)} bytes, leading field {lead:#06x}) hands "
                                     f"{bytes(sup[0].args[0]).hex() if sup and isinstance(sup[0].args[0], (bytes, bytearray)) else [e.args for e in sup]!r:.90} to the struct decoder instead of the "
@@ -711,6 +720,10 @@ def _wire_width(t):
             return int(m.group(1)) // 8
         if n in ("EUI64", "ExtendedPanId"):
             return 8
+        if n in ("Channels",):
+            return 4  # zigpy's channel mask: a 32-bit bitmap
+        if n in ("NWK", "PanId", "EmberNodeId", "EmberPanId", "EmberMulticastId", "Group"):
+            return 2
         if n in ("KeyData",):
             return 16
     return None
